@@ -69,7 +69,7 @@ func (c15) Cases(tier string) int {
 }
 
 func (c15) Rule() string {
-	return "corpus (null bodies, null batch members, multipart index corner cases, wrong methods/content types) then generated requests: methods {GET, POST, PUT, DELETE, OPTIONS, PATCH, HEAD}, content types {json, text/plain, empty, multipart, xml, with parameters}, query strings with valid/invalid/missing query, variables, operationName, extensions; bodies from a JSON grammar aimed at the operation shape (null, numbers, strings, arrays containing null, wrong field types, deep nesting, keys in other letter case) and byte noise; multipart layouts with valid and invalid operations/map/paths/files; through GraphQLHandler and PlaygroundHandler with httptest; checked: no panic, the body is JSON and is a GraphQL response (object with data and/or errors) or a list of them, a request that did not serve any operation has a 4xx status, a non-empty errors entry and made no service request; non-trivial = the request reaches operation parsing; distinct = distinct request"
+	return "corpus (null bodies, null batch members, multipart index corner cases, wrong methods/content types) then generated requests: methods {GET, POST, PUT, DELETE, OPTIONS, PATCH, HEAD}, content types {json, text/plain, empty, multipart, xml, with parameters}, query strings with valid/invalid/missing query, variables, operationName, extensions; bodies from a JSON grammar aimed at the operation shape (null, numbers, strings, arrays containing null, wrong field types, deep nesting, keys in other letter case) and byte noise; multipart layouts with valid and invalid operations/map/paths/files; through GraphQLHandler and PlaygroundHandler with httptest; checked: no panic, the body is JSON and is a GraphQL response (object with data and/or errors) or a list of them, a request that did not serve any operation has a 4xx status, a non-empty errors entry and made no service request; non-trivial = the request reaches operation parsing; distinct = distinct request; multipart positions around 2^31, 2^32, 2^63 and 2^64"
 }
 
 func genJSONValue(r *rand.Rand, depth int) interface{} {
